@@ -6,7 +6,7 @@ from vc.spec import il_len, il_snoc, _rec, _def
 from vc import mmnum
 from vc.mmnum import hd, tl, nil, is_lsd, is_msd, msds, val_rev, rev_acc, il_app, number, A, U
 from vc.engine import SV, SymRaise, Unsupported
-from vc.pyfe import Interp, Env, Closure, LoopContract, Obj
+from vc.pyfe import Interp, Env, Closure, LoopContract, Obj, _LazyEnum
 from vc.lemmas import Lemma
 
 CONV = 'proof_generation.metamath.converter.converter'
@@ -63,35 +63,49 @@ class ConvLoop(LoopContract):
     invariant: prefix ++ rest == encoding0,  exp == len(prefix),  msds(prefix),  n == n0 + 20 * val_rev(prefix)"""
 
     def entry(self, interp, ctx, env, it):
-        self.enc0 = it.t
+        # the position counter is either the local `exp` (incremented by the body) or the index of enumerate(encoding)
+        self.enum = isinstance(it, _LazyEnum)
+        seq = it.seq if self.enum else it
+        if not (isinstance(seq, SV) and seq.kind == 'str'):
+            raise Unsupported('conversion loop: iterable is neither the encoding string nor enumerate(encoding)')
+        self.enc0 = seq.t
         self.n0 = interp.as_int(env.get('n'))
-        ctx.oblige('loop-entry:exp starts at 0', interp.as_int(env.get('exp')) == 0, kind='loop')
+        if not self.enum:
+            ctx.oblige('loop-entry:exp starts at 0', interp.as_int(env.get('exp')) == 0, kind='loop')
 
     def _inv(self, prefix, rest, n, exp):
         return z3.And(il_app(prefix, rest) == self.enc0, exp == il_len(prefix), msds(prefix), n == self.n0 + 20 * val_rev(prefix))
 
+    def _havoc(self, ctx, env, prefix, rest):
+        n = ctx.fresh('int', 'n')
+        env.set('n', n)
+        if self.enum:
+            exp = il_len(prefix)
+        else:
+            e = ctx.fresh('int', 'exp')
+            env.set('exp', e)
+            exp = e.t
+        ctx.assume(self._inv(prefix, rest, n.t, exp))
+
     def arbitrary_iteration(self, interp, ctx, env, it):
         self.prefix = ctx.fresh('str', 'prefix').t
         rest = ctx.fresh('str', 'rest').t
-        n, exp = ctx.fresh('int', 'n'), ctx.fresh('int', 'exp')
-        env.set('n', n)
-        env.set('exp', exp)
-        ctx.assume(self._inv(self.prefix, rest, n.t, exp.t))
+        self._havoc(ctx, env, self.prefix, rest)
         ctx.assume(z3.Not(IDL.is_('inil', rest)))
         self.c = hd(rest)
         self.rest2 = tl(rest)
+        if self.enum:
+            return (SV(il_len(self.prefix), 'int'), SV(self.c, 'char'))
         return SV(self.c, 'char')
 
     def after_iteration(self, interp, ctx, env, it, elem):
-        ctx.oblige('loop-step:invariant', self._inv(il_snoc(self.prefix, self.c), self.rest2, interp.as_int(env.get('n')),
-                                                    interp.as_int(env.get('exp'))), kind='loop')
+        p2 = il_snoc(self.prefix, self.c)
+        exp = il_len(p2) if self.enum else interp.as_int(env.get('exp'))
+        ctx.oblige('loop-step:invariant', self._inv(p2, self.rest2, interp.as_int(env.get('n')), exp), kind='loop')
 
     def exit(self, interp, ctx, env, it):
         prefix = ctx.fresh('str', 'prefix').t
-        n, exp = ctx.fresh('int', 'n'), ctx.fresh('int', 'exp')
-        env.set('n', n)
-        env.set('exp', exp)
-        ctx.assume(self._inv(prefix, nil, n.t, exp.t))
+        self._havoc(ctx, env, prefix, nil)
 
 
 def convert_unit(repo):
